@@ -179,41 +179,110 @@ def run(ctx: Ctx) -> None:
             ctx.fail("RF-TABLE", f"unexpected-exemption-entry:{v}", fac, c, f"exemption entry {v!r} is outside the set the property allows (exact health endpoint, {{prefix}}/_oauth/...)")
         entries.append((arg, kind, c))
 
-    # ---- evaluate the bypass predicate over the request matrix
+    # ---- evaluate the bypass predicate over the request matrix (and over two-request histories)
+    from ..util import Obj, _eval_x, mini_exec
+
+    cls_info = ctx.res.class_of(mw)
+    if cls_info is None:
+        raise AnalysisError("C20: auth middleware is not a class method")
+    init = cls_info.methods.get("__init__")
+    if init is None:
+        raise AnalysisError("C20: auth middleware has no __init__")
+    BUILT = {"set": set, "dict": dict, "frozenset": frozenset, "tuple": tuple, "list": list}
+    MODCONST: dict[str, object] = {k: v.value for k, v in mw.module.constants.items() if isinstance(v, ast.Constant)}
+
+    def make_self(ex_list: list[str]) -> Obj:
+        me = Obj()
+        env0: dict[str, object] = {"self": me}
+        for a in init.node.args.args[1:]:
+            env0[a.arg] = None
+        env0["authenticate"] = _SENTINEL
+        env0["exempt_prefixes"] = tuple(ex_list)
+        mini_exec(init.node, env0, dict(BUILT))
+        return me
+
+    def method_funcs(me: Obj) -> dict[str, object]:
+        fs: dict[str, object] = dict(BUILT)
+        for name, m in cls_info.methods.items():
+            if name in ("__init__", "process_request", "process_response"):
+                continue
+            params = [a.arg for a in m.node.args.args[1:]]
+
+            def call(*args, _m=m, _params=params):
+                return mini_exec(_m.node, {**MODCONST, "self": me, **dict(zip(_params, args))}, fs)
+
+            fs[f"self.{name}"] = call
+        return fs
+
     defs = _single_defs(mw)
+
+    def decide(me: Obj, verb: str, path: str) -> bool:
+        env: dict[str, object] = {**MODCONST, "self": me, "req": Obj(method=verb, path=path, remote_addr="")}
+        fs = method_funcs(me)
+        got = False
+        for n, lab in bypass:
+            names = [x for x in names_in(n.test) if x in defs and x not in env]
+            for _ in range(3):
+                for name in list(names):
+                    try:
+                        env[name] = _eval_x(defs[name], env, fs)
+                        names.remove(name)
+                    except AnalysisError:
+                        for inner in names_in(defs[name]):
+                            if inner in defs and inner not in env and inner not in names:
+                                names.append(inner)
+            val = bool(_eval_x(n.test, env, fs))
+            if (val and lab == "T") or ((not val) and lab == "F"):
+                got = True
+        return got
+
     n_eval = 0
     worst: dict[str, tuple[str, str, str]] = {}
     meths = ["health", "healthz", "health_check", "healthcheck", "health2", "_oauth", "_oauthx", "_oauth_cb", "describe", "echo", "x", "well-known", "__describe__", "heal"]
+
+    def spec(verb: str, path: str, P: str, health_on: bool, pkce_on: bool) -> bool:
+        return verb == "OPTIONS" or path.startswith("/.well-known/") or (health_on and path == P + "/health") or (pkce_on and path.startswith(P + "/_oauth/"))
+
+    def note(shape: str, verb: str, path: str, cfgs: str) -> None:
+        cand = (verb, path, cfgs)
+        rank = lambda c: (c[0] != "POST", not c[1].endswith("z"), len(c[1]))  # noqa: E731
+        if shape not in worst or rank(cand) < rank(worst[shape]):
+            worst[shape] = cand
+
     for P in ("", "/vgi", "/a/b"):
         for health_on, pkce_on in itertools.product((True, False), repeat=2):
             ex_list = []
             for arg, kind, _c in entries:
                 if (kind == "health" and health_on) or (kind == "oauth" and pkce_on) or kind == "other":
                     ex_list.append(mini_eval(arg, {"prefix": P}))
+            cfgs = f"prefix={P!r} health={health_on} pkce={pkce_on}"
+            import copy
+
+            template = make_self(ex_list)
             paths = {"/.well-known/oauth-protected-resource", "/.well-knownx", "/.well-known", "/.well-known/", "/", P or "/", P + "/", "/health", "/healthz", "/_oauth/callback", "/.well-known" + P}
             for m in meths:
                 for suf in ("", "/init", "/exchange", "/", "z/init"):
                     paths.add(f"{P}/{m}{suf}")
             for sub in ("callback", "logout", "token", "init", "exchange", ""):
                 paths.add(f"{P}/_oauth/{sub}")
-            for verb in ("GET", "POST", "OPTIONS", "DELETE", "HEAD", "PUT"):
+            for verb in ("GET", "POST", "OPTIONS", "HEAD"):
                 for path in sorted(paths):
-                    env = {"req.method": verb, "req.path": path, "self._exempt_prefixes": tuple(ex_list), "self._authenticate": _SENTINEL}
-                    got = False
-                    for n, lab in bypass:
-                        val = _eval_guard(n.test, defs, env)
-                        if (val and lab == "T") or ((not val) and lab == "F"):
-                            got = True
-                    spec = verb == "OPTIONS" or path.startswith("/.well-known/") or (health_on and path == P + "/health") or (pkce_on and path.startswith(P + "/_oauth/"))
+                    got = decide(copy.deepcopy(template), verb, path)
                     n_eval += 1
-                    if got and not spec:
+                    if got and not spec(verb, path, P, health_on, pkce_on):
                         shape = "health-prefix" if path.startswith(P + "/health") else ("oauth-prefix" if path.startswith(P + "/_oauth") else ("well-known" if path.startswith("/.well-known") else "other"))
-                        cand = (verb, path, f"prefix={P!r} health={health_on} pkce={pkce_on}")
-                        rank = lambda c: (c[0] != "POST", not c[1].endswith("z"), len(c[1]))  # noqa: E731
-                        if shape not in worst or rank(cand) < rank(worst[shape]):
-                            worst[shape] = cand
-    ctx.note(f"exemption predicate evaluated on {n_eval} (configuration, verb, path) cases")
-    for shape in ("health-prefix", "oauth-prefix", "well-known", "other"):
+                        note(shape, verb, path, cfgs)
+            # histories: the decision for a request must not depend on what was asked before
+            for path in (f"{P}/echo", f"{P}/echo/init", f"{P}/echo/exchange", f"{P}/__describe__"):
+                for prior in (("OPTIONS", path), ("GET", P + "/health"), ("GET", "/.well-known/x"), ("OPTIONS", P + "/health")):
+                    me = copy.deepcopy(template)
+                    decide(me, *prior)
+                    got = decide(me, "POST", path)
+                    n_eval += 1
+                    if got and not spec("POST", path, P, health_on, pkce_on):
+                        note("history-dependent", "POST", f"{path} after {prior[0]} {prior[1]}", cfgs)
+    ctx.note(f"exemption predicate evaluated on {n_eval} (configuration, verb, path[, prior request]) cases")
+    for shape in ("health-prefix", "oauth-prefix", "well-known", "history-dependent", "other"):
         if shape in worst:
             verb, path, cfgs = worst[shape]
             ctx.fail("RF-ABS", f"over-exemption:{shape}", mw, bypass[0][0],
